@@ -191,12 +191,13 @@ func (p *Propagator) beaconsPerInterface(
 // shouldIgnore indicates whether a beacon should not be sent on the egress
 // interface because it creates a loop.
 func (p *Propagator) shouldIgnore(bseg beacon.Beacon, intf *ifstate.Interface) bool {
-	for _, entry := range bseg.Segment.ASEntries {
-		if entry.Local.Equal(p.IA) {
-			return true
-		}
-	}
-	if err := beacon.FilterLoop(bseg, intf.TopoInfo().IA, p.AllowIsdLoop); err != nil {
+	// The beacon is sent with an additional entry for the local AS, which is therefore
+	// part of the path that must be free of AS and ISD loops.
+	entries := bseg.Segment.ASEntries
+	extended := beacon.Beacon{Segment: &seg.PathSegment{
+		ASEntries: append(entries[:len(entries):len(entries)], seg.ASEntry{Local: p.IA}),
+	}}
+	if err := beacon.FilterLoop(extended, intf.TopoInfo().IA, p.AllowIsdLoop); err != nil {
 		return true
 	}
 	return false
